@@ -4,7 +4,7 @@
    (= NumPy 1-D indexing arr[idx] for slices, integer sequences and boolean masks), both
    validated against CPython / NumPy on every run of ./check C18. *)
 From Coq Require Import ZArith List Bool Lia.
-From NV Require Import Base.PySlice C18.Model C18.Lemmas.
+From NV Require Import Base.PySlice C18.Model C18.Lemmas C18.Tables C18.ModelXml C18.LemmasXml.
 Import ListNotations.
 Open Scope Z_scope.
 
@@ -179,14 +179,17 @@ Theorem C18_header_roundtrip : forall axes, Forall axis_wf axes ->
 Proof. exact axes_header_roundtrip. Qed.
 Print Assumptions C18_header_roundtrip.
 
-(* the saved file, GIVEN the two oracles as premises: the XML layer returns the matrix of
+(* the saved file at the level of the AXES, with payloads of interned values; GIVEN two oracles
+   as premises (the XML premise is, for headers whose strings are clean, what
+   C18_xml_roundtrip_iff below proves about the real XML structure; joining the interned
+   payloads of Scalar/Label/Parcels axes to that structure is not formalised): the XML layer returns the matrix of
    index maps it was given (Cifti2*._to_xml_element + Cifti2Parser/expat) and the NIfTI-2
    container returns shape, extension 32 and data (C01/C11).  Then loading what was saved
    gives the same data, the same data shape, and axes equal to the ones written.  The XML
    premise is what the correspondence streams E/F measure; it is known to fail for map names /
    metadata / label names that are empty or have leading or trailing whitespace (S-C18c) -
    inputs kept out of the generators and probed separately. *)
-Theorem C18_file_roundtrip : forall (X D F : Type)
+Theorem C18_file_roundtrip_axes : forall (X D F : Type)
     (to_xml : list (list Z * amap) -> X) (parse_xml : X -> res (list (list Z * amap)))
     (dshape : D -> list Z) (nifti_write : list Z -> X -> D -> F)
     (nifti_read : F -> res (list Z * option X * D)),
@@ -202,7 +205,7 @@ Proof.
            file_roundtrip axis_eqb axis_enc axis_dec axis_wf axis_eqb_refl axis_eqb_trans axis_enc_dec
                           to_xml parse_xml axis_len dshape nifti_write nifti_read).
 Qed.
-Print Assumptions C18_file_roundtrip.
+Print Assumptions C18_file_roundtrip_axes.
 
 (* file histories: the NIfTI header of the image being saved may come from a loaded or an
    already saved image (nifti_header=...) and then already holds CIFTI-2 XML of OTHER axes.
@@ -216,6 +219,82 @@ Theorem C18_save_replaces_cifti_extension : forall exts xml,
      = filter (fun e => negb (is_cifti_ext e)) exts.
 Proof. exact save_replaces_cifti_ext. Qed.
 Print Assumptions C18_save_replaces_cifti_extension.
+
+(* ---------------------------------------------------------------- the XML layer (ModelXml.v) *)
+(* Cifti2Parser's handler state machine (StartElementHandler / EndElementHandler /
+   CharacterDataHandler / flush_chardata with its strip()) run over the expat event list of what
+   Cifti2Header.to_xml writes returns the NORMALISED header: every metadata key/value, label
+   name and map name stripped, dictionaries rebuilt key by key, an empty map name -> None,
+   empty MetaData / LabelTable / VoxelIndicesIJK / VertexIndices objects -> None.
+   header_ok = what the parser (not the writer) checks: Version >= 2, every dimension mapped
+   once, one Volume per map, LabelTable only in LABELS maps, Surface only in PARCELS maps,
+   BrainModel only in BRAIN_MODELS maps with valid structure and model type, valid Vertices
+   structures, 16 matrix entries.  Premises: the number-text oracles (str(int)/' '.join,
+   '{:.10f}', np.loadtxt) invert each other. *)
+Theorem C18_xml_parse_write : forall bs_valid show_ints show_vox show_matrix loadtxt_ints loadtxt_floats,
+  show_ints [] = [] ->
+  (forall l, l <> [] -> show_ints l <> [] /\ loadtxt_ints (strip (show_ints l)) = Some l) ->
+  (forall v, v <> [] -> show_vox v <> [] /\ exists l, loadtxt_ints (strip (show_vox v)) = Some l /\ triples l = Some v) ->
+  (forall m, length m = 16%nat -> show_matrix m <> [] /\ loadtxt_floats (strip (show_matrix m)) = Some m) ->
+  forall h ev, write show_ints show_vox show_matrix h = XOk ev -> header_ok bs_valid h ->
+  parse bs_valid loadtxt_ints loadtxt_floats ev = XOk (norm h).
+Proof. exact parse_write. Qed.
+Print Assumptions C18_xml_parse_write.
+
+(* S-C18c as a theorem pair.  (1) parse (to_xml h) = h EXACTLY when h is clean: every metadata
+   key and value, label name and map name t satisfies t.strip() == t; map names are non-empty
+   (an empty MapName element has no character data and leaves map_name None); metadata and
+   label tables have distinct keys and are not empty objects (an empty MetaData / LabelTable /
+   index table is not written and reads back as None). *)
+Theorem C18_xml_roundtrip_iff : forall bs_valid show_ints show_vox show_matrix loadtxt_ints loadtxt_floats,
+  show_ints [] = [] ->
+  (forall l, l <> [] -> show_ints l <> [] /\ loadtxt_ints (strip (show_ints l)) = Some l) ->
+  (forall v, v <> [] -> show_vox v <> [] /\ exists l, loadtxt_ints (strip (show_vox v)) = Some l /\ triples l = Some v) ->
+  (forall m, length m = 16%nat -> show_matrix m <> [] /\ loadtxt_floats (strip (show_matrix m)) = Some m) ->
+  forall h ev, write show_ints show_vox show_matrix h = XOk ev -> header_ok bs_valid h ->
+  (parse bs_valid loadtxt_ints loadtxt_floats ev = XOk h <-> header_clean h).
+Proof. exact xml_roundtrip_iff. Qed.
+Print Assumptions C18_xml_roundtrip_iff.
+
+Theorem C18_xml_norm_fixed_iff : forall h, norm h = h <-> header_clean h.
+Proof. exact norm_fixed_iff. Qed.
+Print Assumptions C18_xml_norm_fixed_iff.
+
+(* (2) the unrestricted statement "parse (to_xml h) = h" is false: a scalar map named " b "
+   is written and read back as "b" (finding S-C18c) *)
+Theorem C18_xml_exact_roundtrip_refuted :
+  let h := mkXH 20 None [mkXM [0] mt_scalars (mkXS None None None None None) [CNamed (mkNM (Some [32; 98; 32]) None None)]] in
+  let nil1 := fun _ : list Z => @nil Z in
+  exists ev h', write nil1 (fun _ => []) nil1 h = XOk ev
+    /\ parse (fun _ => true) (fun _ => None) (fun _ => None) ev = XOk h' /\ h' <> h
+    /\ h' = mkXH 20 None [mkXM [0] mt_scalars (mkXS None None None None None) [CNamed (mkNM (Some [98]) None None)]].
+Proof. exact xml_whitespace_refuted. Qed.
+Print Assumptions C18_xml_exact_roundtrip_refuted.
+
+(* however expat cuts a text into CharacterDataHandler calls (buffer size), the result is the same *)
+Theorem C18_xml_chunking : forall bs_valid loadtxt_ints loadtxt_floats pre a b post,
+  parse bs_valid loadtxt_ints loadtxt_floats (pre ++ Chars a :: Chars b :: post)
+  = parse bs_valid loadtxt_ints loadtxt_floats (pre ++ Chars (a ++ b) :: post).
+Proof. exact split_chunk. Qed.
+Print Assumptions C18_xml_chunking.
+
+(* the file with the XML premise DISCHARGED: header structure -> to_xml -> extension 32 of a
+   NIfTI-2 file -> Cifti2Parser gives the normalised header (the header itself iff clean, by
+   C18_xml_norm_fixed_iff), the same shape and the same data.  Remaining premises: the NIfTI-2
+   container returns shape, extension and data (C01/C10/C11) and the number-text oracles. *)
+Theorem C18_file_roundtrip : forall bs_valid show_ints show_vox show_matrix loadtxt_ints loadtxt_floats,
+  show_ints [] = [] ->
+  (forall l, l <> [] -> show_ints l <> [] /\ loadtxt_ints (strip (show_ints l)) = Some l) ->
+  (forall v, v <> [] -> show_vox v <> [] /\ exists l, loadtxt_ints (strip (show_vox v)) = Some l /\ triples l = Some v) ->
+  (forall m, length m = 16%nat -> show_matrix m <> [] /\ loadtxt_floats (strip (show_matrix m)) = Some m) ->
+  forall (D F : Type) (nifti_write : list Z -> list event -> D -> F)
+         (nifti_read : F -> option (list Z * option (list event) * D)),
+  (forall sh x d, nifti_read (nifti_write sh x d) = Some (sh, Some x, d)) ->
+  forall h shape data f, header_ok bs_valid h ->
+  xml_save show_ints show_vox show_matrix nifti_write h shape data = XOk f ->
+  xml_load bs_valid loadtxt_ints loadtxt_floats nifti_read f = XOk (norm h, shape, data).
+Proof. exact xml_file_roundtrip. Qed.
+Print Assumptions C18_file_roundtrip.
 
 (* non-vacuity: an interleaved axis (cortex / thalamus / cortex / thalamus / cortex) is well
    formed; its maps, the decoded axis and a fancy index compute to the expected values *)
